@@ -16,6 +16,9 @@ import (
 func (f *FrameInfo) modsOf(fn *ssa.Function) []string {
 	var out []string
 	for n := range f.mods[fn] {
+		if f.restores[fn][n] {
+			continue
+		}
 		out = append(out, n)
 	}
 	sort.Strings(out)
@@ -33,7 +36,7 @@ type frameBuilder struct {
 }
 
 func computeFrames(P *Program, S *SpecSet) *FrameInfo {
-	info := &FrameInfo{mods: map[*ssa.Function]map[string]bool{}}
+	info := &FrameInfo{mods: map[*ssa.Function]map[string]bool{}, restores: map[*ssa.Function]map[string]bool{}}
 	ng := &Gen{P: P, S: S, heapSort: map[string]string{}, decl: map[string]string{}, globals: map[string]bool{}, typeIDs: map[string]int{}, strLits: map[string]string{}, cur: map[string]string{}, allMods: map[string]bool{}, blockMod: map[int]map[string]bool{}, oblSeen: map[string]int{}}
 	ng.curBlk = -1
 	fb := &frameBuilder{P: P, S: S, ng: ng, info: info, calls: map[*ssa.Function][]*ssa.Function{}, static: map[*ssa.Function][]*ssa.Function{}, impls: map[string][]*ssa.Function{}}
@@ -61,6 +64,22 @@ func computeFrames(P *Program, S *SpecSet) *FrameInfo {
 	for _, fn := range all {
 		info.mods[fn] = map[string]bool{}
 		fb.direct(fn)
+		k := P.KeyOf[fn]
+		if k == "" {
+			k = funcKey(fn)
+		}
+		if ctr := S.Contracts[k]; ctr != nil && !ctr.Assumed {
+			for _, cl := range ctr.Clauses {
+				if cl.Kind == "restores" {
+					if info.restores[fn] == nil {
+						info.restores[fn] = map[string]bool{}
+					}
+					for _, n := range cl.Names {
+						info.restores[fn]["G."+n] = true
+					}
+				}
+			}
+		}
 	}
 	// fixed point over static calls
 	for changed := true; changed; {
@@ -68,6 +87,9 @@ func computeFrames(P *Program, S *SpecSet) *FrameInfo {
 		for _, fn := range all {
 			for _, cal := range fb.calls[fn] {
 				for n := range info.mods[cal] {
+					if info.restores[cal][n] {
+						continue
+					}
 					if !info.mods[fn][n] {
 						info.mods[fn][n] = true
 						changed = true
